@@ -34,3 +34,14 @@ claim("C16",
       "monitors applied to the implementation's answers are proved of the model (C16_monitor_*).",
       "Coq proof (induction over rows; finite table facts by vm_compute over regenerated data) + in-Coq differential correspondence",
       "DESIGN.md 5/C16, 10")
+claim("C08",
+      "Coq theorems over the executable expansion model (study.py staging, parameters.py, ExecutionGraph.add_step/add_connection), for all "
+      "specifications inside the decidable hygiene H8 and all set-iteration oracles: used-parameter closure, instance sharing iff rows agree "
+      "on the used parameters, parents/_dependencies exactly {same-row instance of each ordinary dependency} U {all instances of each funnel "
+      "dependency} and _source iff none, one unparameterised instance, totality, sound sharing, parents earlier in insertion order, restart "
+      "limit attached iff a restart command exists. Outside H8 two known findings (K2, K2b) are refuted by witnesses. Tie: the real "
+      "Study.stage() on exhaustive tiny + generated specifications compared with the model inside Coq under two oracles; the monitor C08_ok "
+      "evaluated on the implementation's graph is the predicate C08_monitor_holds proves of the model; the two regex scanners are compared "
+      "with Python's re.",
+      "Coq proof (staging invariant by induction over the step/row loops) + in-Coq differential correspondence with Study.stage()",
+      "DESIGN.md 5/C08, 10")
